@@ -353,3 +353,101 @@ Definition MichEnc : node -> bytes -> Prop := Enc known_prim utf8_valid.
 Definition MichEncList : list node -> bytes -> Prop := EncList known_prim utf8_valid.
 Definition TezosEnc : node -> bytes -> Prop := Enc known_prim any_text.
 Definition dec_full_tezos : bytes -> dres node := dec_full_gen known_prim any_text.
+
+(* ---------------------------------------------------------------- index-style decoder
+   A second decoder that follows the control flow of unforge_micheline literally: one buffer and
+   an index.  The state is the unread suffix [bs] (= data[ptr:]); a sequence reads its length n
+   (which must not exceed the rest of the *whole* buffer), then keeps decoding elements from the
+   whole suffix while ptr < end, and finally demands ptr == end: [pseq] carries end - ptr as
+   [remaining] and rejects as soon as an element has consumed more than that.
+   Proofs/MichelineBin_proofs.v shows  pdec_full_gen = dec_full_gen  (pdec_full_eq). *)
+Section IndexDec.
+  Variable known : byte -> bool.
+  Variable str_ok : bytes -> bool.
+
+  (* unforge_array used only for its length check, as unforge_sequence does *)
+  Definition seq_len (bs : bytes) : option (nat * bytes) :=
+    match bs with
+    | a :: b :: c :: d :: r =>
+        let len := be_to_N [a; b; c; d] in
+        if (len <=? N.of_nat (length r))%N then Some (N.to_nat len, r) else None
+    | _ => None
+    end.
+
+  Fixpoint pdec (fuel : nat) (bs : bytes) {struct fuel} : dres (node * bytes) :=
+    match fuel with
+    | O => DFuel
+    | S f =>
+        match bs with
+        | [] => DReject
+        | tag :: r =>
+            match tag with
+            | x00 =>
+                match dec_int r with
+                | Some (z, rest) => DOk (NInt z, rest)
+                | None => DReject
+                end
+            | x01 =>
+                match take_arr r with
+                | Some (s, rest) => if str_ok s then DOk (NStr s, rest) else DReject
+                | None => DReject
+                end
+            | x0a =>
+                match take_arr r with
+                | Some (b, rest) => DOk (NByt b, rest)
+                | None => DReject
+                end
+            | x02 =>
+                match seq_len r with
+                | Some (n, r1) => dbind (pseq f n r1) (fun '(items, rest) => DOk (NSeq items, rest))
+                | None => DReject
+                end
+            | _ =>
+                match prim_shape tag, r with
+                | Some (k, has), t :: r1 =>
+                    if known t then
+                      dbind
+                        (match k with
+                         | 0 => DOk ([], r1)
+                         | 1 => dbind (pdec f r1) (fun '(a, r2) => DOk ([a], r2))
+                         | 2 => dbind (pdec f r1) (fun '(a, r2) =>
+                                dbind (pdec f r2) (fun '(b, r3) => DOk ([a; b], r3)))
+                         | _ => match seq_len r1 with
+                                | Some (n, r2) => pseq f n r2
+                                | None => DReject
+                                end
+                         end)
+                        (fun '(args, r2) =>
+                           dbind (dec_annots str_ok has r2) (fun '(annots, r3) =>
+                           DOk (NPrim t args annots, r3)))
+                    else DReject
+                | _, _ => DReject
+                end
+            end
+        end
+    end
+  with pseq (fuel : nat) (remaining : nat) (bs : bytes) {struct fuel} : dres (list node * bytes) :=
+    match remaining with
+    | O => DOk ([], bs)
+    | _ =>
+        match fuel with
+        | O => DFuel
+        | S f =>
+            dbind (pdec f bs) (fun '(x, rest) =>
+              let k := length bs - length rest in
+              if Nat.leb k remaining
+              then dbind (pseq f (remaining - k) rest) (fun '(xs, rest') => DOk (x :: xs, rest'))
+              else DReject)
+        end
+    end.
+
+  Definition pdec_full_gen (bs : bytes) : dres node :=
+    match pdec (fuel_for bs) bs with
+    | DOk (n, []) => DOk n
+    | DOk (_, _ :: _) => DReject
+    | DReject => DReject
+    | DFuel => DFuel
+    end.
+End IndexDec.
+
+Definition pdec_full : bytes -> dres node := pdec_full_gen known_prim utf8_valid.
